@@ -1,6 +1,8 @@
 (* C17 Exec: checkers evaluated by vm_compute on (call history, observed behaviour of collection.Cache). *)
 From God Require Export Base.Prelude C17.Model.
 From God Require C10.Model.
+From GodGen Require C17_Gen.
+From Coq Require QArith.
 From God Require Export C17.Spec.
 
 Record obs := mkObs {
@@ -10,7 +12,7 @@ Record obs := mkObs {
   ob_keys : list nat          (* keys of the data map after the call *)
 }.
 
-Record case := mkcase {
+Record ccase := mkcase {
   c_exp : Z;                  (* NewCache(expire), nanoseconds *)
   c_limit : Z;                (* WithLimit *)
   c_phase : nat;              (* wheel ticks before the first call *)
@@ -48,7 +50,7 @@ Fixpoint model_run (c : wheel_cache) (ops : list cop) (os : list obs) : bool :=
 
 Fixpoint iter {A} (n : nat) (f : A -> A) (a : A) : A := match n with O => a | S n' => iter n' f (f a) end.
 
-Definition model_ok (c : case) : bool :=
+Definition cache_model_ok (c : ccase) : bool :=
   model_run (iter (c_phase c) (ctick C10.Model.step_ok) (wnew (c_exp c) (c_limit c))) (c_ops c) (c_obs c).
 
 (* ---- the property on the observations: replayed on the reference cache of Spec.v ---- *)
@@ -101,4 +103,101 @@ Fixpoint spec_run (limit dflt : Z) (T : nat) (r : list rentry) (ops : list cop) 
   | _, _ => false
   end.
 
-Definition spec_ok (c : case) : bool := spec_run (c_limit c) (c_exp c) (c_phase c) [] (c_ops c) (c_obs c).
+Definition cache_spec_ok (c : ccase) : bool := spec_run (c_limit c) (c_exp c) (c_phase c) [] (c_ops c) (c_obs c).
+
+(* ---- the jitter on its own: mathx.Unstable.AroundDuration / AroundInt with the cache's deviation ----
+   one scripted draw d (an Int63) per result; Float64() = d / 2^63 *)
+Record jcase := mkj { j_base : Z; j_draws : list Z; j_durs : list Z; j_ints : list Z }.
+
+Definition dev_num : Z := QArith_base.Qnum C17_Gen.expiryDeviation.
+Definition dev_den : Z := Z.pos (QArith_base.Qden C17_Gen.expiryDeviation).
+Definition two63 : Z := 9223372036854775808.
+
+(* exact rational value (1 + dev - 2 dev d/2^63) * base, rounded down *)
+Definition jit_exact (base d : Z) : Z :=
+  (base * (dev_den + dev_num) * two63 - 2 * dev_num * base * d) / (dev_den * two63).
+
+Definition near (a b : Z) : bool := (Z.abs (a - b) <=? tol)%Z.
+
+Fixpoint all2z (f : Z -> Z -> bool) (l1 l2 : list Z) : bool :=
+  match l1, l2 with
+  | [], [] => true
+  | a :: r1, b :: r2 => f a b && all2z f r1 r2
+  | _, _ => false
+  end.
+
+(* model: the float64 expression agrees with exact arithmetic on the draw to within 1 microsecond *)
+Definition jitter_model_ok (j : jcase) : bool :=
+  all2z (fun d o => near o (jit_exact (j_base j) d)) (j_draws j) (j_durs j) &&
+  all2z (fun d o => near o (jit_exact (j_base j) d)) (j_draws j) (j_ints j).
+
+(* property: whatever the draw, the jittered duration lies within [95%, 105%] of the base *)
+Definition in_window (base o : Z) : bool :=
+  (base * 95 / 100 - tol <=? o)%Z && (o <=? base * 105 / 100 + tol)%Z.
+Definition jitter_spec_ok (j : jcase) : bool :=
+  (length (j_durs j) =? length (j_draws j)) && (length (j_ints j) =? length (j_draws j)) &&
+  forallb (in_window (j_base j)) (j_durs j) && forallb (in_window (j_base j)) (j_ints j).
+
+(* ---- the RPC authenticator's use of Take (rpc/internal/auth/auth.go validate) ---- *)
+Inductive aop := ASet (app tok : nat) | ADel (app : nat) | ADown | AUp | ACall (app tok : nat).
+Record acase := mka { a_strict : bool; a_ops : list aop; a_codes : list nat }.
+
+Definition no_timer (ts : unit) (o : C10.Model.op) : unit * C10.Model.fired := (tt, []).
+Definition CODE_OK := 0. Definition CODE_INTERNAL := 13. Definition CODE_UNAUTH := 16.
+
+(* model: validate = cache.Take(app, store.HGet) on the transcribed cache (expiry 5 min, never reached) *)
+Fixpoint auth_model (strict up : bool) (store : list (nat * nat)) (c : cache unit) (ops : list aop) (codes : list nat) : bool :=
+  match ops with
+  | [] => match codes with [] => true | _ => false end
+  | ASet a t :: r => auth_model strict up (aset Nat.eqb a t store) c r codes
+  | ADel a :: r => auth_model strict up (aremove Nat.eqb a store) c r codes
+  | ADown :: r => auth_model strict false store c r codes
+  | AUp :: r => auth_model strict true store c r codes
+  | ACall a t :: r =>
+      match codes with
+      | [] => false
+      | code :: codes' =>
+          let fetch := if up then alookup Nat.eqb a store else None in
+          match ctake no_timer a fetch 300000000000 c with
+          | (c', Some expect, _) => (code =? (if t =? expect then CODE_OK else CODE_UNAUTH)) && auth_model strict up store c' r codes'
+          | (c', None, _) => (code =? (if strict then CODE_INTERNAL else CODE_OK)) && auth_model strict up store c' r codes'
+          end
+      end
+  end.
+
+Definition auth_model_ok (a : acase) : bool :=
+  auth_model (a_strict a) true [] (cnew 300000000000 0 tt) (a_ops a) (a_codes a).
+
+(* property: a token is cached only by a successful lookup; a failed lookup (store down or app unknown)
+   lets the request pass in non-strict mode but leaves nothing behind, so that once the store answers
+   again the real token is required *)
+Fixpoint auth_spec (strict up : bool) (store cached : list (nat * nat)) (ops : list aop) (codes : list nat) : bool :=
+  match ops with
+  | [] => match codes with [] => true | _ => false end
+  | ASet a t :: r => auth_spec strict up (aset Nat.eqb a t store) cached r codes
+  | ADel a :: r => auth_spec strict up (aremove Nat.eqb a store) cached r codes
+  | ADown :: r => auth_spec strict false store cached r codes
+  | AUp :: r => auth_spec strict true store cached r codes
+  | ACall a t :: r =>
+      match codes with
+      | [] => false
+      | code :: codes' =>
+          match alookup Nat.eqb a cached with
+          | Some expect => (code =? (if t =? expect then CODE_OK else CODE_UNAUTH)) && auth_spec strict up store cached r codes'
+          | None =>
+              match (if up then alookup Nat.eqb a store else None) with
+              | Some expect => (code =? (if t =? expect then CODE_OK else CODE_UNAUTH)) &&
+                               auth_spec strict up store (aset Nat.eqb a expect cached) r codes'
+              | None => (code =? (if strict then CODE_INTERNAL else CODE_OK)) && auth_spec strict up store cached r codes'
+              end
+          end
+      end
+  end.
+
+Definition auth_spec_ok (a : acase) : bool := auth_spec (a_strict a) true [] [] (a_ops a) (a_codes a).
+
+Inductive case := CC (c : ccase) | CJ (j : jcase) | CA (a : acase).
+Definition model_ok (c : case) : bool :=
+  match c with CC c => cache_model_ok c | CJ j => jitter_model_ok j | CA a => auth_model_ok a end.
+Definition spec_ok (c : case) : bool :=
+  match c with CC c => cache_spec_ok c | CJ j => jitter_spec_ok j | CA a => auth_spec_ok a end.
